@@ -195,6 +195,29 @@ def engine_a(rep, modules, harness_timeout, jobs=16, compile_violation=True, max
     jpath = os.path.join(base, "kani_%s.json" % crate_tag)
     rc, out, dt, data = K.cargo_kani(crate_dir, jpath, harness_timeout, jobs=jobs,
                                      log=os.path.join(base, "kani_%s.log" % crate_tag))
+    with open(os.path.join(E.ROOT, "rs", "lib_prelude.rs")) as f:
+        prelude = f.read()
+    for attempt in range(4):
+        if data is not None:
+            break
+        # kani-compiler ICE (e.g. 128-bit niche): drop the module it was compiling and retry
+        bad = None
+        if "internal compiler error" in out:
+            tail = out.split("internal compiler error", 1)[1][:8000]
+            names = {m.name for m in alive}
+            for cand in re.findall(r"([a-z0-9_]+__[a-z0-9_]+)::", tail):
+                if cand in names:
+                    bad = cand
+                    break
+        if not bad:
+            break
+        rep.skipped.append({"module": bad, "what": "kani-compiler internal error while compiling this module (tool limit, e.g. 128-bit niche); module dropped"})
+        log("[%s] kani-compiler ICE in module %s: dropped, retrying" % (prop, bad))
+        alive = [m for m in alive if m.name != bad]
+        ids = {h: v for h, v in ids.items() if v[0].name != bad}
+        E.write_lib(crate_dir, prelude, alive, "")
+        rc, out, dt, data = K.cargo_kani(crate_dir, jpath, harness_timeout, jobs=jobs,
+                                         log=os.path.join(base, "kani_%s_retry%d.log" % (crate_tag, attempt)))
     if data is None:
         rep.infra_errors.append("cargo kani produced no result file (rc=%s); see %s" %
                                 (rc, os.path.join(base, "kani_%s.log" % crate_tag)))
